@@ -325,6 +325,13 @@ Section Main.
     (* the verifier *)
     unfold nisp5_verify. cbn [sp_chal sp_s1 sp_s2 sp_s3 sp_s4 sp_s5 sp_s6 sp_s7 sp_s8 sp_s9 sp_Cx sp_Cv sp_Cw sp_Ce].
     rewrite <- ENm. destruct (Nat.ltb_spec (length bases) (length msgs)); [lia|]. cbn [andb].
+    (* the honest commitments are canonical residues *)
+    assert (Hcan : existsb (fun c => (c_value c <? 0) || (Nm <=? c_value c))%bool [CCx; CCv; CCw; CCe] = false).
+    { cbn [existsb].
+      assert (Hc1 : forall v, 0 <= v < Nm -> ((v <? 0) || (Nm <=? v))%bool = false)
+        by (intros v Hv; apply Bool.orb_false_iff; split; [apply Z.ltb_ge|apply Z.leb_gt]; lia).
+      rewrite (Hc1 _ HCxr), (Hc1 _ HCvr), (Hc1 _ HCwr), (Hc1 _ HCer). reflexivity. }
+    rewrite Hcan.
     destruct (walk_full Nm HN U bases msgs r5 ch Hch Hm0 Hr50 Hr5l Hr5rev Hlb) as [tw [Hw [Htw0 Htw]]].
     rewrite Hw. cbn [bind].
     rewrite (pow_mod_nonneg (c_value CCv)) by first [exact HN | en]. cbn [bind].
